@@ -118,7 +118,10 @@ def encScope (c : Cfg) (rt : RT) (tops : List Name) (extra : List Name) (s : Sco
       "L=" ++ encBool (hasLoop c ids),
       "M=" ++ (match s.mlocals with | some ks => encNames (sortStrs (ks.map encStr) |>.filterMap decStr) | none => "none"),
       "D=" ++ (if decls.isEmpty then "_" else "+".intercalate decls),
-      "X=" ++ encNames (ids.conflicts c),
+      -- emission order of the declarations and of the `__M_locals` keys (sorted since the hash-seed fix)
+      "O=" ++ encNames (emitOrder c ids none),
+      "MO=" ++ (match s.mlocals with | some ks => encNames ks | none => "none"),
+      "X=" ++ encNames ((s.ids :: s.extraIds).flatMap (fun i => i.conflicts c)),
       -- keys of `__M_locals = __M_dict_builtin(k=k, …)` without a Python binding: NameError at entry
       "E=" ++ encNames ((s.mlocals.getD []).filter fun k =>
                 (Impl.resolve c s.frames k == .pyFallback) && (rt.builtins k).isNone),
